@@ -79,7 +79,7 @@ func init() {
 	// properties are stated over the decoded fields.
 	reg("(*github.com/google/gopacket.DecodingLayerParser).DecodeLayers", func(c *callCtx) Val {
 		ex := c.ex
-		ex.used["ASSUMED decoder contract: DecodingLayerParser.DecodeLayers writes only registered layers, *decoded and itself; never panics (recover inside gopacket)"] = true
+		ex.used["ASSUMED decoder contract: DecodingLayerParser.DecodeLayers writes only registered layers, *decoded and itself; never panics (recover inside gopacket); an IP layer's two address slices are set together to 4 (IPv4) / 16 (IPv6) bytes"] = true
 		if ex.pure > 0 {
 			return ex.freshVal(errorT(), c.st, "declayers")
 		}
@@ -107,6 +107,26 @@ func init() {
 							ex.heapSet(c.st, key, srt, nh)
 						}
 					}
+				}
+			}
+		}
+		// decoder contract (gopacket ip4.go / ip6.go): the two address slices of an IP layer are set together, to the 4
+		// (IPv4) or 16 (IPv6) header bytes; a layer that was never decoded keeps its nil slices
+		if fp != nil {
+			if o := fp.Pkg.Scope().Lookup("FrameParser"); o != nil {
+				t := o.Type()
+				lenOf := func(leaf string) string {
+					key := "F|" + typeKey(t) + "|" + leaf
+					srt := heapKeySort("F", sInt, "")
+					ex.registerKey(key, srt)
+					return ex.heapGet(c.st, key, srt)
+				}
+				for _, f := range []struct {
+					pre string
+					n   string
+				}{{"IP4", "4"}, {"IP6", "16"}} {
+					sl, dl := lenOf(f.pre+".SrcIP.len"), lenOf(f.pre+".DstIP.len")
+					ex.assume("(forall ((r!w Int)) (! (and (= (select " + sl + " r!w) (select " + dl + " r!w)) (or (= (select " + sl + " r!w) 0) (= (select " + sl + " r!w) " + f.n + "))) :pattern ((select " + sl + " r!w))))")
 				}
 			}
 		}
